@@ -133,6 +133,9 @@ func c01Shapes() []Shape {
 }
 
 func classifyEq(prop string, o eqOutcome) string {
+	if o.Probe {
+		return fmt.Sprintf("%s.%s.outside-modelled-bash-subset", prop, o.Shape)
+	}
 	if o.Sub != "" {
 		return fmt.Sprintf("%s.%s.%s", prop, o.Shape, o.Sub)
 	}
@@ -148,6 +151,9 @@ func runShapes(r *Run, shapes []Shape, o eqOpts, perShapePaths int) {
 		var whys []string
 		st := r.Eng.Explore(func(c *gosym.Ctx) interface{} { return bashEquiv(r, c, sh, o) },
 			gosym.ExploreOpts{Workers: r.Workers, TimeoutMS: 10000, Budget: gosym.Budget{MaxPaths: perShapePaths}, OnPath: func(pr *gosym.PathResult) {
+				if pb, ok := pr.Probe.(eqOutcome); ok && len(diffs) < 50000 {
+					diffs = append(diffs, pb)
+				}
 				eo, isEo := pr.Ret.(eqOutcome)
 				if !isEo {
 					return
@@ -206,7 +212,11 @@ func runShapes(r *Run, shapes []Shape, o eqOpts, perShapePaths int) {
 			if _, ok := byClass[d.Class]; !ok {
 				order = append(order, d.Class)
 			}
-			if n := len(byClass[d.Class]); n < 6 && (n == 0 || byClass[d.Class][n-1].Src != d.Src) {
+			limit := 6
+			if d.Probe {
+				limit = 16
+			}
+			if n := len(byClass[d.Class]); n < limit && (n == 0 || byClass[d.Class][n-1].Src != d.Src) {
 				byClass[d.Class] = append(byClass[d.Class], d)
 			}
 		}
@@ -231,6 +241,10 @@ func runShapes(r *Run, shapes []Shape, o eqOpts, perShapePaths int) {
 					break
 				}
 			}
+			if !handled && last.Probe {
+				r.AddCount("paths_decided_by_concrete_probe_only", len(byClass[cl]))
+				continue
+			}
 			if !handled {
 				r.Spurious(fmt.Sprintf("shape %s: candidates of class %s (%s) did not reproduce on bash; last program:\n%s", sh.Name, cl, last.Diff, last.Src))
 			}
@@ -246,6 +260,11 @@ func CheckC01(r *Run) int {
 	}
 	r.Native = nat
 	shapes := c01Shapes()
+	ngen := 40
+	if r.Tier != "quick" {
+		ngen = 600
+	}
+	shapes = append(shapes, generatedShapes("scalar", r.Seed, ngen, false, false)...)
 	runShapes(r, shapes, eqOpts{Target: "bash", CheckHazards: true}, 3000)
 	r.Cov("disagreements_checked", r.Ev.Coverage["disagreements_checked"])
 	if _, ok := r.Ev.Coverage["disagreements_checked"].(int); !ok {
